@@ -245,7 +245,11 @@ func (c *chanCase) JSON() json.RawMessage { b, _ := json.Marshal(c.sc); return b
 func (c *chanCase) Callbacks() []simpool.CallbackSpec {
 	var cbs []simpool.CallbackSpec
 	for i := range c.sc.Cbs {
-		cbs = append(cbs, simpool.CallbackSpec{Fn: fmt.Sprintf("cb%d", i), Args: []any{1000 + i, fmt.Sprintf("arg%d", i)}})
+		spec := simpool.CallbackSpec{Fn: fmt.Sprintf("cb%d", i), Args: []any{1000 + i, fmt.Sprintf("arg%d", i)}}
+		if c.sc.Cbs[i].Kind == "echoobj" {
+			spec.Shared = "shared"
+		}
+		cbs = append(cbs, spec)
 	}
 	return cbs
 }
